@@ -99,7 +99,8 @@ def main(argv: list[str] | None = None) -> int:
         case_timeout=getattr(module, "CASE_TIMEOUT", 180.0),
         quiescence_after=getattr(module, "QUIESCENCE_AFTER", 45.0),
         env_extra=getattr(module, "ENV", None),
-        rss_limit=getattr(module, "MEMORY_LIMIT", None))
+        rss_limit=getattr(module, "MEMORY_LIMIT", None),
+        quiescence_scope=getattr(module, "QUIESCENCE_SCOPE", "tree"))
     if hasattr(module, "finalize"):
         module.finalize(ctx, records)
 
